@@ -63,6 +63,13 @@ func newC31FineWorld() world {
 	return w
 }
 
+// newC31ReplayWorld accepts every event of every leg (replay by event name).
+func newC31ReplayWorld() world {
+	w := newC31World().(*c31world)
+	w.alphabet = []string{"strobe", "adv-eighth", "adv-half", "adv-7eighths", "adv-one", "adv-two", "consume", "terminate"}
+	return w
+}
+
 func (w *c31world) menu() []string {
 	if w.alphabet != nil {
 		return w.alphabet
@@ -204,7 +211,7 @@ func TestC31(t *testing.T) {
 			}
 			return
 		}
-		run := replayBubbleEvents(t, newC31World, c.Events)
+		run := replayBubbleEvents(t, newC31ReplayWorld, c.Events)
 		for i, o := range run.Obs {
 			ev := "init"
 			if i > 0 && i-1 < len(run.Events) {
@@ -262,7 +269,7 @@ func TestC31(t *testing.T) {
 			evs := append([]string{}, run.Events...)
 			c := c31caseFile{Stage: "bubble", Events: evs}
 			r.Violate("bubble:"+key, run.Violation, c, func() bool {
-				return replayBubbleEvents(t, newC31World, evs).Violation != ""
+				return replayBubbleEvents(t, newC31ReplayWorld, evs).Violation != ""
 			})
 		}
 	}
